@@ -93,7 +93,7 @@ def translate():
    classifies every entry, so a new or renamed message breaks the build until it is modelled. *)
 From Coq Require Import String List.
 Import ListNotations.
-Open Scope string_scope.
+Local Open Scope string_scope.
 
 (* (module, Msg service method) *)
 Definition c20_msgs : list (string * string) :=
@@ -1076,10 +1076,34 @@ def replay(path):
     return 1 if (out.oracle_violations or out.mismatches) else 0
 
 
-SCOPE = "full"
-EXPLANATION = ""
-TRUSTED = []
-ASSUMPTIONS = []
-TECHNIQUE = ""
-LEVEL_TEXT = ""
-LEVEL_NOTE = ""
+SCOPE = ("full for the modelled handlers: every theorem of Properties/C20.v holds for every state (hence after every history), every sender, every "
+         "message of the 26 constructors and every value of the unmodelled pool arithmetic (env); axiom-free")
+EXPLANATION = ("Gallina model C20/Model.v of the 26 Msg-service methods of x/concentrated-liquidity, x/lockup, x/superfluid and x/tokenfactory that act on an "
+               "existing position / lock / factory denom (or on the sender's own locks / namespace), each handler's guards written in the order and form of "
+               "the Go code, under baseapp's atomic wrapper. Theorems by case analysis on the message: a sender outside the authorised set always fails and "
+               "nothing changes; renounced admin => every admin message fails for everybody; CreateDenom only in the sender's namespace; mint-to / burn-from / "
+               "force-transfer never change a protected module account's balance. The inventory is tied to the code: the translator extracts every method of "
+               "the generated MsgServer interfaces (cross-checked with the proto services) and C20/Inventory.v proves by computation that each one is "
+               "modelled or explicitly classified as creating a new object of the sender (CreatePosition, CreateConcentratedPool, LockTokens, "
+               "CreateFullRangePositionAndSuperfluidDelegate). The model is tied to /repo by running the real message servers of the full app on random "
+               "histories and, at checkpoints, the message x sender matrix (owner/admin, previous owner/admin, unrelated, empty account, allow-listed account, "
+               "governance and other module accounts, the pool's own addresses, intermediary accounts, admins of other denoms) on one and the same state, "
+               "comparing verdict, error class (authorisation / other) and the projected post-state of every accepted message with the model.")
+TRUSTED = [
+    "hand-written model coq/theories/C20/Model.v, tied to the four modules by the correspondence run (harness/c20drv against /repo's working tree)",
+    "harness/c20drv (Go; abstraction of chain state into indices, error-text -> class mapping), props/c20.py (translator, generator, abstraction into Coq terms, oracle), Coq vm_compute evaluation of generated case files",
+    "modelled not verified: baseapp atomicity (CacheContext written only on success), bank SendCoins / Mint / Burn, staking delegation, gamm / concentrated pool arithmetic (abstracted into env), cosmwasm sudo call of SetBeforeSendHook, ValidateBasic (reported by the driver, not part of the model), signature verification (sender = signer)",
+]
+ASSUMPTIONS = [
+    "the sender field of a message is the signer (ante handler), and is a well-formed address (the empty string is not a sender: Sender == \"\" would equal a renounced admin in the handler's string comparison, baseapp rejects it in ValidateBasic / GetSigners)",
+    "messages run under baseapp's atomic wrapper: a handler that returns an error leaves no writes",
+    "locks hold one coin (MsgLockTokens.ValidateBasic); the protected accounts of tokenfactory are the module accounts of app.maccPerms (permAddrs and permAddrMap hold the same set)",
+]
+TECHNIQUE = "Coq proof by case analysis over a Gallina model of the four modules' message handlers; inventory lemma over the translated Msg services; model tied to the full app by a message x sender differential matrix (vm_compute) + oracle"
+LEVEL_TEXT = ("Machine-checked theorems (Coq 8.16.1, axiom-free) for all states, senders and messages: unauthorised => fails and state unchanged; accepted => "
+              "authorised; renounced admin powerless; CreateDenom confined to the sender's namespace; module accounts out of reach of mint-to / burn-from / "
+              "force-transfer; every Msg-service method found in the code is modelled or explicitly classified. The model is hand-written and checked "
+              "against the real message servers on every run; an independent oracle evaluates the property's predicates on the implementation's observations.")
+LEVEL_NOTE = ("Trusted: Coq kernel (vm_compute), no axioms; model C20/Model.v; driver harness/c20drv and python glue; SDK bank/staking/store semantics and pool arithmetic "
+              "are abstracted. Noted, not a violation: tokenfactory Burn's msg-server module-account guard converts bech32 text to bytes and is dead code; the "
+              "effective guard is burnFrom's IsModuleAcc (mirrored).")
